@@ -205,18 +205,20 @@ pub fn any_of(id: usize) -> AnyLayout {
     }
 }
 
-pub static ANY_STATICS: [AnyLayout; N_LAYOUTS] = [
-    AnyLayout::Us104Key(Us104Key),
-    AnyLayout::Uk105Key(Uk105Key),
-    AnyLayout::De105Key(De105Key),
-    AnyLayout::Azerty(Azerty),
-    AnyLayout::No105Key(No105Key),
-    AnyLayout::FiSe105Key(FiSe105Key),
-    AnyLayout::Jis109Key(Jis109Key),
-    AnyLayout::Colemak(Colemak),
-    AnyLayout::Dvorak104Key(Dvorak104Key),
-    AnyLayout::DVP104Key(DVP104Key),
-];
+/// `&'static AnyLayout` for variant `id`. Leaked once per thread (thread-local cache) rather than kept
+/// in a `static`, so the harness itself does not depend on `AnyLayout: Sync` (that is C20's business).
+pub fn any_static(id: usize) -> &'static AnyLayout {
+    thread_local! {
+        static CACHE: [&'static AnyLayout; N_LAYOUTS] = {
+            let mut v: Vec<&'static AnyLayout> = Vec::new();
+            for i in 0..N_LAYOUTS {
+                v.push(Box::leak(Box::new(any_of(i))));
+            }
+            [v[0], v[1], v[2], v[3], v[4], v[5], v[6], v[7], v[8], v[9]]
+        };
+    }
+    CACHE.with(|c| c[id])
+}
 
 pub const FORM_NAMES: [&str; 3] = ["direct", "any", "anyref"];
 
@@ -225,9 +227,9 @@ pub const FORM_NAMES: [&str; 3] = ["direct", "any", "anyref"];
 pub fn map_form(form: usize, id: usize, k: KeyCode, m: &Modifiers, hc: HandleControl) -> DecodedKey {
     match form {
         0 => map_direct(id, k, m, hc),
-        1 => ANY_STATICS[id].map_keycode(k, m, hc),
+        1 => any_static(id).map_keycode(k, m, hc),
         2 => {
-            let r: &AnyLayout = &ANY_STATICS[id];
+            let r: &AnyLayout = any_static(id);
             <&AnyLayout as KeyboardLayout>::map_keycode(&r, k, m, hc)
         }
         _ => panic!("harness: bad form"),
@@ -303,4 +305,17 @@ pub fn par_chunks<T: Send, F: Fn(usize) -> T + Sync>(n: usize, f: F) -> Vec<T> {
     let mut v = out.into_inner().unwrap();
     v.sort_by_key(|x| x.0);
     v.into_iter().map(|x| x.1).collect()
+}
+
+/// Run subject code under catch_unwind; a panic becomes an `Err` carrying its message.
+pub fn guarded<T>(f: impl FnOnce() -> T) -> Result<T, String> {
+    std::panic::catch_unwind(std::panic::AssertUnwindSafe(f)).map_err(|e| {
+        if let Some(s) = e.downcast_ref::<&str>() {
+            format!("PANIC({})", s)
+        } else if let Some(s) = e.downcast_ref::<String>() {
+            format!("PANIC({})", s)
+        } else {
+            "PANIC(?)".to_string()
+        }
+    })
 }
